@@ -117,6 +117,21 @@ StepNode(e) ==
                       [l |-> l, inv |-> "BoundedRounds", class |-> "round bound exceeded after GST"])
      /\ UNCHANGED <<dec, gst>>
 
+\* a node that has left the modelled rounds (possible only when something is already wrong, or in very long runs): its
+\* steps are not compared any more, only the C03 bound is still evaluated on the observed round
+OutOfRange(e) ==
+  \/ st[e.n].round > MaxRound \/ e.post.round > MaxRound
+  \/ (e.m.r > MaxRound)
+  \/ \E i \in DOMAIN e.out : e.out[i].r > MaxRound
+StepOut(e) ==
+  /\ st' = [st EXCEPT ![e.n] = [st[e.n] EXCEPT !.round = IF e.post.round > MaxRound THEN e.post.round ELSE @]]
+  /\ viol' = viol
+       \cup FailIf(e.post.panic # "none", [l |-> l, inv |-> "NoPanic", class |-> e.post.panic])
+       \cup FailIf(gst.on /\ e.post.height = 1 /\ e.post.round > gst.round + e.bound,
+                   [l |-> l, inv |-> "BoundedRounds", class |-> "round bound exceeded after GST"])
+  /\ drift' = drift \cup FailIf(st[e.n].round <= MaxRound, [l |-> l, what |-> "node left the modelled rounds", fields |-> <<"round">>])
+  /\ UNCHANGED <<dec, sgn, gst>>
+
 StepDecision(e) ==
   LET n == e.n IN
   /\ dec' = [dec EXCEPT ![n] = e.v]
@@ -157,7 +172,7 @@ Step ==
          [] e.ev = "Set"      -> StepSet(e)
          [] e.ev = "GST"      -> StepGST(e)
          [] e.ev = "SyncEnd"  -> StepSyncEnd(e)
-         [] OTHER             -> StepNode(e)
+         [] OTHER             -> IF OutOfRange(e) THEN StepOut(e) ELSE StepNode(e)
   /\ l' = l + 1
 
 Finish ==
